@@ -99,7 +99,8 @@ def check(run):
     from diameter.message.avp.grouped import ProxyInfo
     n_gen = 0
     for cls in [c for c in classes if c.__name__.endswith("Request")] + [Message]:
-        for with_sid, with_proxy in ((False, False), (True, False), (True, True)):
+        for with_sid, with_proxy, fbits in ((False, False, 0), (True, False, 0x40), (True, True, 0x40), (True, True, 0x00),
+                                            (False, True, 0x10), (True, True, 0x50)):
             req = cls()
             declared = {d.attr_name for d in getattr(cls, "avp_def", ())}
             if with_sid and "session_id" in declared:
@@ -108,12 +109,12 @@ def check(run):
                 req.proxy_info = [ProxyInfo(proxy_host=b"p.example.net", proxy_state=b"\x01\x02")]
             req.header.hop_by_hop_identifier = 77
             req.header.end_to_end_identifier = 88
-            req.header.command_flags |= 0x40 if with_sid else 0
+            req.header.command_flags = (req.header.command_flags & ~0x70) | fbits     # P and T bits vary independently
             for how in ("node", "app"):
                 a = node._generate_answer(None, req) if how == "node" else app.generate_answer(req, 2001, "ok")
-                case = {"class": cls.__name__, "via": how, "session": with_sid, "proxy": with_proxy}
+                case = {"class": cls.__name__, "via": how, "session": with_sid, "proxy": with_proxy, "flag_bits": fbits}
                 n_gen += 1
-                run.count(1, [("gen", cls.__name__, how, with_sid, with_proxy)])
+                run.count(1, [("gen", cls.__name__, how, with_sid, with_proxy, fbits)])
                 if a.origin_host != b"srv.example.net" or a.origin_realm != b"example.net":
                     run.violation("origin", case, [a.origin_host, a.origin_realm])
                 if hasattr(req, "session_id") and getattr(a, "session_id", None) != getattr(req, "session_id"):
